@@ -53,7 +53,9 @@ def check_case(ctx, case, enum=False, sk_cache=None):
     bits = 8 * len(digest)
     defined = at or bits <= n.bit_length()
     try:
-        rs = sk.sign_digest(digest, k=k, allow_truncate=at, sigencode=SU.rs_tuple)
+        from .c01 import as_type, PAYLOAD_TYPES
+        ptype = case.get("ptype") or PAYLOAD_TYPES[(dd + k + len(digest)) % len(PAYLOAD_TYPES)]
+        rs = sk.sign_digest(as_type(digest, ptype), k=k, allow_truncate=at, sigencode=SU.rs_tuple)
         got = ("sig", tuple(int(v) for v in rs))
     except RSZeroError:
         got = ("rszero",)
